@@ -24,9 +24,10 @@ def run(rep, tier, seed):
     interp.family_check(rep, "scope", tier, seed, cmp, dict(MaxNodes=3), dict(MaxNodes=4), devsets=devsets,
                         sample_quick=6000, sample_thorough=60000, need_outcomes=("ok", "ok/retried", "ref"))
     # reuse scopes: attribute bindings visible to the instance only
-    if tier == "thorough":
-        interp.family_check(rep, "reuse", tier, seed + 1, cmp, dict(MaxNodes=3), dict(MaxNodes=4),
-                            devsets=[("LateEnv",)], sample_quick=2500, sample_thorough=30000, need_outcomes=("ok",))
+    interp.family_check(rep, "scope0", tier, seed + 2, cmp, dict(MaxNodes=3), dict(MaxNodes=4), devsets=devsets,
+                        sample_quick=4000, sample_thorough=60000, need_outcomes=("ok",))
+    interp.family_check(rep, "reuse", tier, seed + 1, cmp, dict(MaxNodes=3), dict(MaxNodes=4),
+                        devsets=[("LateEnv",)], sample_quick=3500, sample_thorough=30000, need_outcomes=("ok",))
     # larger nestings by random simulation of the same specification
     interp.simulate_family(rep, "scope", seed, 3000 if tier == "thorough" else 600, cmp, devsets=devsets, min_size=4,
                            MaxNodes=6, MaxDepth=4)
